@@ -89,21 +89,58 @@ class Session:
         except Exception:
             return False
 
-    def load(self, text):
+    def _from_source(self, text, via):
+        """The same document through another source: UTF-8 bytes, or a file holding those bytes."""
+        data = text.encode('utf-8')
+        if via == 'bytes':
+            return self.mt.MosFile.from_string(data)
+        if getattr(self, '_srcfile', None) is None:
+            import tempfile
+            fd, self._srcfile = tempfile.mkstemp(prefix='verif-load-', suffix='.mos.xml')
+            os.close(fd)
+        with open(self._srcfile, 'wb') as f:
+            f.write(data)
+        return self.mt.MosFile.from_file(self._srcfile)
+
+    def load(self, text, via=None):
+        """MosFile for a document text.  The SOURCE is a dimension of every workload: one load in eight goes
+        through a file, one in eight through bytes (documents without an XML declaration, as UTF-8)."""
+        self._loads = getattr(self, '_loads', 0) + 1
+        if via is None:
+            via = 'str'
+            if isinstance(text, str) and '<?xml' not in text[:200] and self._loads % 4 == 0:
+                via = 'file' if self._loads % 8 == 0 else 'bytes'
+        wit = {'type': 'load', 'doc': text if isinstance(text, str) else text.decode('latin-1'), 'via': via}
+        concerns = self.LOAD_FIDELITY.get(self.prop, 'every property is about the document that was given')
         EV.STATE['quiet'] = EV.STATE.get('quiet', 0) + 1
         try:
-            mo = self.mt.MosFile.from_string(text)
+            mo = None
+            if via != 'str':
+                self.hist['loads_via_' + via] += 1
+                try:
+                    mo = self._from_source(text, via)
+                except Exception as e:
+                    try:
+                        mo = self.mt.MosFile.from_string(text)
+                    except Exception:
+                        raise e from None         # refused from every source alike: not a matter of the source
+                    # the same document loads from a str: the source decided
+                    self.custom_violation('document-loads-from-a-string-but-not-from-%s' % via,
+                                          {'exc': [c.__name__ for c in type(e).__mro__][:2], 'msg': str(e)[:160],
+                                           'concerns': concerns, 'host': getattr(self, 'hostenv', 'plain')},
+                                          wit, msg_kind='load', status='load')
+                    via = 'str'
+            if mo is None:
+                mo = self.mt.MosFile.from_string(text)
         except Exception as e:
             if self.prop in self.LOAD_FIDELITY and type(e).__name__ == 'MosInvalidXML' and self._parses(text):
                 # the library calls a document invalid XML that the XML parser reads: nothing it carries can arrive
                 self.custom_violation('well-formed-document-refused-as-invalid-xml',
-                                      {'concerns': self.LOAD_FIDELITY[self.prop], 'msg': str(e)[:200]},
-                                      {'type': 'load', 'doc': text if isinstance(text, str) else text.decode('latin-1')},
-                                      msg_kind='load', status='load')
+                                      {'concerns': concerns, 'msg': str(e)[:200]}, wit, msg_kind='load', status='load')
             raise
         finally:
             EV.STATE['quiet'] -= 1
-        if self.prop in self.LOAD_FIDELITY:
+        if self.prop in self.LOAD_FIDELITY or via != 'str':
             # the tree the library holds == an independent parse of the same text (same parser, so any
             # difference was made by the library: dropped characters, re-decoded text, rewritten nodes)
             try:
@@ -115,9 +152,9 @@ class Session:
             self.hist['load_fidelity_checks'] += 1
             if not same:
                 self.custom_violation('document-altered-by-loading',
-                                      {'class': type(mo).__name__, 'concerns': self.LOAD_FIDELITY[self.prop]},
-                                      {'type': 'load', 'doc': text if isinstance(text, str) else text.decode('latin-1')},
-                                      msg_kind=type(mo).__name__, status='load')
+                                      {'class': type(mo).__name__, 'concerns': concerns, 'via': via,
+                                       'host': getattr(self, 'hostenv', 'plain')},
+                                      wit, msg_kind=type(mo).__name__, status='load')
         return mo
 
     def add(self, ro, msg, error_on=None):
@@ -126,6 +163,8 @@ class Session:
         interpreter's -W error configuration, restricted to that category)."""
         with warnings.catch_warnings(record=True) as wl:
             warnings.simplefilter('always')
+            if sys.flags.bytes_warning >= 2:
+                warnings.simplefilter('error', BytesWarning)      # python -bb stays python -bb inside the monitored call
             if error_on is not None:
                 warnings.simplefilter('error', error_on)
             try:
@@ -308,6 +347,8 @@ class Session:
             return ro, e, None, None
         with warnings.catch_warnings(record=True) as wl:
             warnings.simplefilter('always')
+            if sys.flags.bytes_warning >= 2:
+                warnings.simplefilter('error', BytesWarning)
             ro2, err = attach.direct_merge(ro, msg)
         delivered = [type(w.message).__name__ for w in wl]
         judged = self.drain_and_judge(delivered, ctx)
@@ -326,6 +367,12 @@ class Session:
 
     # -- result
     def result(self):
+        if getattr(self, '_srcfile', None):
+            try:
+                os.unlink(self._srcfile)
+            except OSError:
+                pass
+            self._srcfile = None
         acc = {k: c for k, c in EV.COUNTS.items()}
         return {
             'prop': self.prop, 'tier': self.tier, 'seed': self.seed, 'worker': self.wi,
